@@ -20,7 +20,7 @@ from ..oracles import sigmodel as sm
 PID = "C06"
 LEVEL = "exploration"
 RULE = ("full product of operation sequences (depth<=2 quick / 3 thorough, 4 for the plain FunctionSignal) over the "
-        "22-operation signal alphabet x all read masks, on 9 kinds of function-backed signals (plain 1- and 2-component, a memoising function, a grid-dependent function, "
+        "24-operation signal alphabet x all read masks, on 9 kinds of function-backed signals (plain 1- and 2-component, a memoising function, a grid-dependent function, "
         "ZHS/AVZ/ARZ Askaryan, FFT/Full thermal noise under OwnedRandom); and of attribute-assignment sequences "
         "(depth<=2/3) x read masks on Specialized/Basic/Uniform/Layered tracers and their paths; distinct_nontrivial = "
         "distinct (kind, op sequence, mask) with at least one read before a mutation")
@@ -70,7 +70,9 @@ SIG_OPS = ["shift+3", "shift-5", "imul2", "idiv4", "filt_delay2", "filt_lowpass"
            # same number of samples, twice the step (a cache keyed by length alone cannot tell the grids apart)
            "times_stretch", "with_times_stretch",
            # a second component that carries its own, different filter (same padded length as the first)
-           "add_late_lowpass"]
+           "add_late_lowpass",
+           # a filter without force_real next to filters with it; a leading buffer that is not a whole number of samples
+           "filt_delay2_noforce", "buf_lead_frac"]
 SIG_KINDS = ["plain_early", "plain_two", "plain_memo", "plain_gridaware", "zhs", "avz", "arz", "fftnoise", "fullnoise"]
 
 
@@ -147,6 +149,16 @@ def _apply_sig(obj, mod, op):
         if mod:
             for c in mod.comps:
                 c[5].append((name, True))
+    elif op == "filt_delay2_noforce":
+        obj.filter_frequencies(FILTERS["delay2"][0], force_real=False)
+        if mod:
+            for c in mod.comps:
+                c[5].append(("delay2", False))
+    elif op == "buf_lead_frac":
+        obj.set_buffers(leading=4.5 * dt)
+        if mod:
+            for c in mod.comps:
+                c[2] = max(c[2], 4.5 * dt)
     elif op == "buf_lead4":
         obj.set_buffers(leading=4 * dt)
         if mod:
